@@ -12,7 +12,11 @@ RULE = ("random response-plan trees (depth <= 5; objects concrete/abstract with 
         "inaccessible enum value, array<->object, null list item, __skipErrors, duplicate key). A second stream gives "
         "every node a data path of length 0..3 (field path mappings such as [data,user]; empty path = the enclosing "
         "object itself, i.e. flattened objects; list items read below a key; siblings sharing a proper prefix; a segment "
-        "equal to a sibling's key) with the payload nested accordingly, with and without authorization rules. Distinct by "
+        "equal to a sibling's key) with the payload nested accordingly, with and without authorization rules. A third stream "
+        "(typeshapes) gives objects every (TypeName, PossibleTypes) shape -- none, {own}, {own + others} (entity interface), "
+        "{others}, {one other} --, selects __typename as String{IsTypeName:true} on 3/5 of the objects (so also on list items "
+        "and below nullable / non-null parents) and, in 3/4 of the payloads, rewrites \"__typename\" at one data object to "
+        "missing / null / valid / unknown / inaccessible / empty string / number / boolean / object / array. Distinct by "
         "hash of the case line; non-trivial when at least one mutation was applied and the completion semantics reports an error.")
 
 # Findings on plans outside plan_wf (the driver tags the violated clause); each has a corpus file
@@ -52,6 +56,7 @@ def run(chk, prop="C02", auth=False):
         "astjson (Get/SetNull/SetArrayItem/MarshalTo/Parse) is modelled on JSON trees, not verified; error message wording is not modelled",
         "node paths: any key sequence (get_path / set_path navigate exactly like Value.Get / astjson.SetValue on objects); a path segment that is a decimal number would index an array in astjson -- never generated, not modelled; an empty path is built as a nil slice (what the planner emits for list items), a non-nil empty slice is not distinguished",
         "plan_wf (hypothesis of the refinement theorem): within one object value the data paths read by its fields, looking through flattened (empty-path) objects, are pairwise prefix-incomparable; authorization rules sit on fields with a non-empty path not starting with __typename; objects/lists are not read through the key __typename. Plans violating exactly one of the two path clauses are still held to no-panic / valid JSON / envelope / type-safety (findings overlapping-sibling-paths, denied-empty-path-panic)",
+        "Object.PossibleTypes (a Go map) is the duplicate-free list of its keys in the model (is_abstract_exact: length = len(map), In = lookup); resolve.String{IsTypeName:true} is the model node NStr -- with no type renames configured walkString differs from a plain String only in calling printNode instead of renderScalarFieldValue, which print the same bytes under default options (tied byte for byte by the typeshapes stream)",
         "Apollo-compatibility options, custom field renderers, UnescapeResponseJson, type-name renaming, cost control and extensions are outside the model",
         "go harness: harness/plan (generator, plan builder), harness/cmd/c02; Go's encoding/json.Valid is the validity oracle for the output text",
     ]
@@ -118,6 +123,38 @@ def run(chk, prop="C02", auth=False):
                 pass
     if pstats:
         chk.coverage.setdefault("distribution", {})["path_streams"] = pstats
+    # abstract-type guard and __typename leaves (harness/plan/typeshapes.go): every (TypeName, PossibleTypes) shape
+    # -- none, {own}, {own + others} (entity interface), {others}, {one other} -- crossed with "__typename" in the
+    # data missing / null / valid / unknown / inaccessible string / number / boolean / object / array, and
+    # `__typename` selected as String{IsTypeName:true}; single-key paths and paths of any length
+    if not auth:
+        ntn = 2500 if chk.tier == "quick" else 150000
+        tstats = {}
+        for tag, flags, seed, cnt in (("typeshapes", "", 15485863 * chk.seed + 3, ntn),
+                                      ("typeshapes-paths", " -paths 1", 15485863 * chk.seed + 5, ntn // 2)):
+            stf = os.path.join(chk.work, tag + ".tstats.json")
+            b = vlib.run_batch(chk, "%s gen -seed %d -n %d -tn 1%s -tstats %s -out {out}" % (exe, seed, cnt, flags, stf), model, tag)
+            if b:
+                vlib.digest_batch(chk, b[0], b[1], classify, state)
+                if tag == "typeshapes":
+                    samples += [c[:1500] for c in b[0][:2]]
+                try:
+                    st = json.load(open(stf))
+                except (OSError, ValueError):
+                    st = {}
+                st["cases"] = len(b[0])
+                st["with_errors"] = sum(1 for c in b[0] if "(errs (e" in c)
+                st["typename_errors"] = sum(1 for c in b[0] if "(e 3 (" in c)
+                st["typename_leaf_kind_errors"] = sum(1 for c in b[0] if '(e 4 (' in c and '(n "__typename"))' in c)
+                tnm = {}
+                for c in b[0]:
+                    for lab in c.rsplit('(mut "', 1)[-1].rstrip('")').split(","):
+                        if lab.startswith("tn:"):
+                            tnm[lab] = tnm.get(lab, 0) + 1
+                st["typename_mutations"] = tnm
+                tstats[tag] = st
+        if tstats:
+            chk.coverage.setdefault("distribution", {})["typeshape_streams"] = tstats
 
     def more(st):
         for k in range(1, 6):
@@ -127,6 +164,10 @@ def run(chk, prop="C02", auth=False):
             bb = vlib.run_batch(chk, "%s gen -seed %d -n %d -paths 1%s -out {out}" % (exe, chk.seed * 1000 + 500 + k, n * 3, authf), model, "morep%d" % k)
             if bb:
                 vlib.digest_batch(chk, bb[0], bb[1], classify, st)
+            if not auth:
+                bb = vlib.run_batch(chk, "%s gen -seed %d -n %d -tn 1%s -out {out}" % (exe, chk.seed * 1000 + 800 + k, n * 2, " -paths 1" if k % 2 == 0 else ""), model, "moretn%d" % k)
+                if bb:
+                    vlib.digest_batch(chk, bb[0], bb[1], classify, st)
             if any(kk is None for (kk, _, _) in st.get("specfail", [])):
                 break
 
